@@ -46,6 +46,22 @@ fn try_run_builtin(
     }
 
     let cmd = &cl.commands[idx_cmd];
+    // a redirection target that cannot be opened fails the command instead
+    // of running it; the builtins open their targets only when they print
+    // something, and fall back to the terminal when that fails.
+    for item in &cmd.redirects_to {
+        if item.2.starts_with('&') {
+            continue;
+        }
+        match tools::create_raw_fd_from_file(&item.2, item.1 == ">>") {
+            Ok(fd) => libs::close(fd),
+            Err(e) => {
+                println_stderr!("cicada: {}: {}", &item.2, e);
+                return Some(CommandResult::from_status(0, 1));
+            }
+        }
+    }
+
     let tokens = cmd.tokens.clone();
     let cname = tokens[0].1.clone();
     if cname == "alias" {
